@@ -22,6 +22,21 @@ CLAIMED = {
             "run against merge_double_ended(_times) on every missing-measurement pattern for N<=6 (quick) / 7 (thorough) with "
             "regular and jittered timing, both verify settings, random irregular histories and random grids, compared exactly.",
             NOTE + "Assumes distinct timestamps within a channel; pandas nearest tie-break as observed.", "§8 C15"),
+    "C16": ("Lean 4 theorems on a code-faithful model of validate_sections (accept => usable, usable+ordered bounds => accept, refutation of the converse, strictly ascending reference rows) + exhaustive/random differential correspondence",
+            "Proof: C16_accept_imp_usable (whatever is let through has present keys, non-empty stretches, no location twice), "
+            "C16_usable_chain_imp_accept, C16_accept_iff_usable_refuted (usable definitions with overlapping bounds are refused: "
+            "registered known finding), C16_chain_sep, C16_ixSecAll_strictly_increasing (one observation per location, fibre "
+            "order). Model vs validate_sections / calibrate_single_ended / variance_stokes_constant on every placement of <=2 "
+            "stretches on the half-integer lattice of a 4-point grid, sampled 3-4 stretch layouts, random larger layouts; "
+            "x_indices and broadcast reference rows compared exactly.",
+            NOTE + "Grid strictly increasing; equal starts may be ordered either way by numpy (verdict insensitive).", "§8 C16"),
+    "C20": ("Lean 4 theorems on the model of ufunc_per_section_helper (selection, three orderings, row->bath map) + differential correspondence over modes x calc_per x backing",
+            "Proof: C20_stretch_selects (exactly the in-range locations, ascending, once), C20_stretch_order, "
+            "C20_section_order, C20_all_order (permutation sorted by start), C20_x_indices_ascending, C20_row_bath (the "
+            "reference series of a row is that of a bath selecting its location). Model-derived gathers vs both "
+            "ufunc_per_section entry points for random valid layouts x 5 argument modes x 3 calc_per x numpy/dask x "
+            "(x,)/(x,time) x 4 funcs; arrays compared exactly (var/mean to 1e-12).",
+            NOTE + "dask evaluation is exercised, not modelled; temp_err/ref on (x,) variables recorded, not judged.", "§8 C20"),
 }
 
 NOT_YET = "check not built yet in this round (planned, see DESIGN.md §8/§13); no claim is made"
